@@ -591,6 +591,43 @@ func templateFuncs() []*wfunc {
     args.dst.write_u8?(a: b)
     args.dst.write_u8?(a: c)
 `),
+		// array-typed locals live across suspensions: saved and restored by memcpy (var.go
+		// writeResumeSuspend1), one template per element width
+		mk("tarr0", "tmpl:array-local", `    var a : array[4] base.u8
+    var c : base.u8
+
+    c = args.src.read_u8?()
+    a[0] = c
+    c = args.src.read_u8?()
+    a[1] = c
+    c = args.src.read_u8?()
+    a[3] = c
+    args.dst.write_u8?(a: a[0])
+    args.dst.write_u8?(a: a[1])
+    args.dst.write_u8?(a: a[3] ^ a[0])
+    this.acc = (a[1] as base.u64) | ((a[2] as base.u64) << 8)
+`),
+		mk("tarr1", "tmpl:array-local", `    var w : array[2] base.u32
+    var h : array[2] base.u16
+    var q : array[2] base.u64
+    var i : base.u32
+    var c : base.u8
+
+    w[0] = args.src.read_u24le_as_u32?()
+    h[1] = args.src.read_u16be?()
+    q[0] = args.src.read_u40le_as_u64?()
+    while i < 2 {
+        c = args.src.read_u8?()
+        w[i] ~mod+= (c as base.u32)
+        h[i] ^= (c as base.u16)
+        q[i] ~mod+= (w[0] as base.u64)
+        args.dst.write_u8?(a: ((w[i] >> 8) & 0xFF) as base.u8)
+        i += 1
+    }
+    this.acc = (w[0] as base.u64) ^ ((w[1] as base.u64) << 32)
+    this.g1 = (q[0] ~mod+ q[1]) ^ (h[0] as base.u64) ^ ((h[1] as base.u64) << 16)
+    args.dst.write_u8?(a: (h[1] & 0xFF) as base.u8)
+`),
 		// every width, each read straddling whatever split is applied
 		mk("twide0", "tmpl:all-widths", `    var x : base.u64
     var y : base.u32
@@ -633,6 +670,9 @@ func probeFuncs() []*wfunc {
 	mk("p_skip", "    var n : base.u64\n    var c : base.u8\n\n    n = args.src.read_u16le_as_u64?()\n    args.src.skip?(n: n)\n    c = args.src.read_u8?()\n    this.acc = (c as base.u64)\n")
 	mk("p_skip_u32", "    var n : base.u32\n    var c : base.u8\n\n    n = args.src.read_u16le_as_u32?()\n    args.src.skip_u32?(n: n)\n    c = args.src.read_u8?()\n    this.acc = (c as base.u64)\n")
 	mk("p_skip1", "    var c : base.u8\n\n    args.src.skip_u32?(n: 1)\n    args.src.skip?(n: 1)\n    c = args.src.read_u8?()\n    this.acc = (c as base.u64)\n")
+	// write_u8 of a local that is never used again (so it is not saved): the value must have been
+	// taken before the suspension point
+	mk("p_write_dead", "    var c : base.u8\n\n    c = args.src.read_u8?()\n    args.dst.write_u8?(a: c)\n")
 	// write_u8: the value is computed from a local that is dead afterwards
 	mk("p_write_u8", "    var c : base.u8\n    var d : base.u8\n\n    c = args.src.read_u8?()\n    d = args.src.read_u8?()\n    args.dst.write_u8?(a: c ~mod+ d)\n    args.dst.write_u8?(a: c ^ d)\n")
 	return out
